@@ -21,16 +21,21 @@ def types_design():
         rt("T2", [i("a", True), s("b"), u("c", "U2")], [V("default", ["a", "b", ("c", "default")]), V("tiny", ["a"]), V("ext", ["a", ("c", "tiny")])]),
         {"name": "T2Coll", "kind": "collection", "base": {"kind": "user", "ref": "T2"}},
         rt("T4", [i("a", True), u("n", "T4")], [V("default", ["a", ("n", "tiny")]), V("tiny", ["a"])]),
+        rt("U5", [i("x", True), s("y")], [V("default", ["x", "y"]), V("tiny", ["x"])]),
+        rt("T5", [i("a", True), u("o", "U5"), u("p", "U5")], [V("default", ["a", ("o", "tiny"), ("p", "default")]), V("tiny", ["a"])]),
+        rt("U6", [i("x", True), s("y")], [V("default", ["x", "y"]), V("tiny", ["x"])]),
+        rt("T6", [i("a", True), dict(u("c", "U6"), view="tiny")], [V("default", ["a", ("c", "default")]), V("tiny", ["a"]), V("ext", ["a", "c"])]),
     ]
 
 
-RES = {"G1": "T1", "G2": "T2", "G3": "T2Coll", "G4": "T4"}
-VIEWS = {"G1": ["default", "tiny"], "G2": ["default", "tiny", "ext"], "G3": ["default", "tiny", "ext"], "G4": ["default", "tiny"]}
+RES = {"G1": "T1", "G2": "T2", "G3": "T2Coll", "G4": "T4", "G5": "T5", "G6": "T6"}
+VIEWS = {"G1": ["default", "tiny"], "G2": ["default", "tiny", "ext"], "G3": ["default", "tiny", "ext"], "G4": ["default", "tiny"],
+         "G5": ["default", "tiny"], "G6": ["default", "tiny", "ext"]}
 
 
 def design(g):
     """one design per graph, so that a graph whose generated code does not compile (C01's business) is set aside alone"""
-    need = {"G1": ["T1"], "G2": ["U2", "T2"], "G3": ["U2", "T2", "T2Coll"], "G4": ["T4"]}[g]
+    need = {"G1": ["T1"], "G2": ["U2", "T2"], "G3": ["U2", "T2", "T2Coll"], "G4": ["T4"], "G5": ["U5", "T5"], "G6": ["U6", "T6"]}[g]
     d = {"api": {"name": "views" + g.lower()}, "types": [t for t in types_design() if t["name"] in need], "services": []}
     if True:
         svc = {"name": g.lower(), "methods": []}
@@ -56,7 +61,7 @@ def value_from_paths(paths):
         for k in parts[:-1]:
             cur = cur.setdefault(k, {})
         leaf = parts[-1]
-        if leaf in ("a", "x"):
+        if leaf in ("a", "x") and True:
             cur.setdefault(leaf, 1 + len(parts))
         elif leaf in ("b", "y"):
             cur.setdefault(leaf, leaf * 2)
@@ -145,7 +150,7 @@ def run(ctx):
                        "Views.tla; non-trivial = the view is a strict subset of the attributes or nesting is involved; distinct = canonical JSON")
     ctx.mc_expect_violation("mc/MC_Views", consts={"Deviations": '{"views.leak_all_attributes"}'}, label="MC dev")
     vectors = ctx.gen("mc/MC_Views", "gen/Gen_Views.cfg", label="Gen Views").vectors
-    graphs = ["G1", "G2", "G3", "G4"]
+    graphs = ["G1", "G2", "G3", "G4", "G5", "G6"]
     designs = [design(g) for g in graphs]
     pl = hg.Pipeline(ctx, "gen-views")
     pl.prepare(designs)
